@@ -12,6 +12,8 @@ _n = [0]
 def scenarios(seed, tier, failed):
     yield {'kind': 'race', 'via': 'append', 'timeout': 20}
     yield {'kind': 'race', 'via': 'event', 'timeout': 20}
+    yield {'kind': 'iterate', 'timeout': 20}
+    yield {'kind': 'big', 'timeout': 30}
     rnd = random.Random(seed)
     for _ in range(50 if tier == 'quick' else 2000):
         ops = []
@@ -108,7 +110,77 @@ def run_race(sc):
     return True, ''
 
 
+def run_iterate(sc):
+    """Event(signal=<number>) in one thread while another thread registers a new name.  The overlap is forced from
+    user code: a line trace on Event.__init__ parks the constructing thread inside its loop over the registry."""
+    import sys
+    from miros.event import signals, Event
+    _n[0] += 1
+    inside, registered = threading.Event(), threading.Event()
+    code = Event.__init__.__code__
+    state = {'lines': 0}
+
+    def local(frame, event, arg):
+        if event == 'line':
+            state['lines'] += 1
+            if state['lines'] == 6 and not inside.is_set():     # a few lines in: inside the lookup of the name
+                inside.set()
+                registered.wait(3.0)
+        return local
+
+    def tracer(frame, event, arg):
+        return local if frame.f_code is code else None
+
+    errors, out = [], []
+    number = signals.PUBLISH_META_SIGNAL + 0
+
+    def construct():
+        sys.settrace(tracer)
+        try:
+            out.append(Event(signal=number))
+        except Exception as ex:
+            errors.append(repr(ex))
+        finally:
+            sys.settrace(None)
+
+    t = threading.Thread(target=construct, daemon=True)
+    t.start()
+    inside.wait(2.0)
+    signals.append('C25_ITER_%d' % _n[0])
+    registered.set()
+    t.join(3.0)
+    if errors:
+        return False, 'Event(signal=%d) while another thread registered a name: %s' % (number, errors[0]), 'Event.__init__'
+    if not out or out[0].signal_name != 'PUBLISH_META_SIGNAL':
+        return False, 'Event(signal=%d) reported %r' % (number, out[0].signal_name if out else None), 'Event.__init__'
+    return True, ''
+
+
+def run_big(sc):
+    """numbers beyond CPython's small-int cache, handed to Event as equal but distinct int objects"""
+    from miros.event import signals, Event
+    _n[0] += 1
+    for i in range(300):
+        signals.append('C25_BIG_%d_%d' % (_n[0], i))
+    for name, num in list(signals.items()):
+        copy = int(str(num))
+        try:
+            e = Event(signal=copy)
+            got = (e.signal_name, e.signal)
+        except Exception as ex:
+            return False, 'Event(signal=%d) for %s raised %r' % (copy, name, ex), 'Event.__init__'
+        if got != (name, num):
+            return False, 'Event(signal=%d) reports %r, the registry binds %r' % (copy, got, (name, num)), 'Event.__init__'
+        if signals.name_for_signal(copy) != name:
+            return False, 'name_for_signal(%d) = %r, expected %r' % (copy, signals.name_for_signal(copy), name), 'name_for_signal'
+    return True, ''
+
+
 def run(sc):
+    if sc['kind'] == 'big':
+        return run_big(sc)
+    if sc['kind'] == 'iterate':
+        return run_iterate(sc)
     return run_race(sc) if sc['kind'] == 'race' else run_seq(sc)
 
 
